@@ -13,6 +13,19 @@ CLAIMED = {
  "C03": ("TLA+ contract layer (Contract(op) = set of allowed outcomes) and algorithm layer (Impl(op)) of Adjacency, Impl refines Contract checked by TLC; every (state, operation) case replayed on all four flavours through handles of rotating provenance, panics and self-deadlocks (lock-point hook) captured as outcomes; mismatches adjudicated by TLC",
          "Every (abstract state, operation) pair within the bounds is executed against all four implementations and its complete outcome (return value, all lists of all nodes) compared with the outcomes the contract allows.", "§4 C03"),
 }
+
+SEARCH_NOTE = "TLA+ Search (algorithm layer: queue / std BinaryHeap / recursion stack, edge tree, back-tracking) model-checked against SearchProps (property layer) with TLC; every finished run TLC emits is replayed into the real traversals (all entry points, targets, plain/for_each/filter) and compared exactly; disagreements and queries recorded on random larger graphs are judged by TLC on the property layer (TraceSearch)"
+for _pid, _t in {
+ "C04": "bfs: result iff target reachable in the accepted graph, valid chained existing accepted edges, fewest edges; search() returns the target in the same cases",
+ "C05": "dfs: result iff reachable, valid path, no node twice; search() likewise",
+ "C06": "pfs min/max: expansion order by node value (ExpansionOrderOK on the examined-edge sequence of the real heap), path iff reachable, node comparison table (Ord/PartialOrd by value, Eq by key) judged by TLC",
+ "C07": "target-free runs of all six traversal kinds: bag of closure invocations = bag of list entries of reachable nodes; rejected triples never in any result; reachability in the accepted graph",
+ "C08": "full configuration matrix {bfs,dfs,pfs-min,pfs-max,pre,post} x {search,search_path,search_cycle,search_nodes,search_edges} x {plain,transposed} on digraph and sync_digraph; the transposed result must satisfy the same predicate on the reversed lists",
+ "C09": "search_cycle for bfs/dfs/pfs: result iff a cycle through the root exists; genuine, no repeated node, bfs shortest (directed); closed walk (undirected)",
+ "C10": "preorder/postorder (directed) and order().pre()/.post() (undirected): exact 'some DFS discovers/finishes in this order' decision (PreSim/PostSim) and TreeEdgesOK for search_edges",
+}.items():
+    CLAIMED[_pid] = (SEARCH_NOTE, "Exhaustive over all multigraphs with <=3 nodes / <=3 edges (quick; thorough adds 2 edge values, all filter subsets, 4 nodes) x roots x targets x filters: " + _t + ". Seeded random graphs (12 / 30 nodes) beyond.", "§4 " + _pid)
+
 NOT_YET = {}
 props = [json.loads(l) for l in open(os.path.join(V, "properties.jsonl"))]
 checks = []
